@@ -14,6 +14,7 @@ def is_notice_call(call):
 class C08(SessionProp):
     id = "C08"
     prop_file = "Props/C08"
+    unenc = 0.04
     rule = (
         "corpus of 300-cycle histories and >64 KiB queues (1% of the seeded ones too); seeded histories (1-14 calls) of client and server sessions, extended requests named with the notice OID, every RFC 4511 result code: every request/response method with ids drawn "
         "from outstanding / retired / never-issued / 0, unbind, drains, deliveries of well-formed, chunked, corrupted "
@@ -59,9 +60,17 @@ class C08(SessionProp):
         open_ids = set()      # monitor's own bookkeeping of operations in progress
         searches = set()
         known = None
+        meta = c.get("meta") or [None] * len(c["calls"])
         for i, call, o, st, out, st2, out2 in self.steps(c, trace):
             k = call[0]
             accepted_send = k in SEND_CALLS and o[0] in (0, 1)
+            if meta[i] == "unenc" and st != CLOSED:
+                # a call whose text cannot be encoded: it must be refused and is no event of the state machine
+                if accepted_send:
+                    return f"step {i}: a call whose text argument has no UTF-8 form was accepted"
+                if st2 != st or out2 != out:
+                    return f"step {i}: a call refused for unencodable text changed the session (state {st} -> {st2})"
+                continue
             recv_ok = k == RECV and o[0] == 3
             recv_msgs = o[1] if recv_ok else []
             # ---- CLOSED is final
